@@ -11,13 +11,15 @@ for line in open(os.path.join(HERE, 'properties.jsonl')):
         props[p['id']] = p
 for log in sys.argv[1:]:
     for line in open(log):
-        m = re.match(r'(/tmp/mut3?-(C\d\d)(\w?)/out/(m\d)) (demo_clean_exit=0 demo_mutant_exit=1 baseline stable_pass: (\d+), passed now: \6, missing: 0)', line.strip())
+        m = re.match(r'(/tmp/mut[34]?-(C\d\d)(\w?)/out/(m\d)) (demo_clean_exit=0 demo_mutant_exit=1 baseline stable_pass: (\d+), passed now: \6, missing: 0)', line.strip())
         if not m:
             print('SKIP (not confirmed):', line.strip())
             continue
         src, pid, wave, mn, result = m.group(1), m.group(2), m.group(3), m.group(4), m.group(5)
         if src.startswith('/tmp/mut3-'):
             wave = 'c'
+        if src.startswith('/tmp/mut4-'):
+            wave = 'd'
         sid = '%s%s-%s' % (pid, wave, mn)
         dst = os.path.join(HERE, 'seeded', sid)
         os.makedirs(dst, exist_ok=True)
